@@ -232,6 +232,7 @@ def trace_scenarios(tier, seed):
             for prob, y0 in (("stiffroot", [1.0]), ("relay", [0.3])):
                 sc = gen.with_tol(gen.base(m, a, b, 0.25, problem=prob, y0=y0))
                 sc["budget"] = 200000
+                sc["mayFail"] = True       # stage equations without a solution: the library may give up (it must not accept the step)
                 scs.append(sc)
     return gen.number(scs, "C02_")
 
